@@ -15,15 +15,19 @@ RULE = ('rules in which a random subset of fields (every position) carries separ
 ASSUMPTIONS = ['the direction is passed to compress/decompress (optional argument introduced by the fix of the direction defect; without it all descriptors are used, as before)']
 STACKS = ['IPv6-UDP-CoAP', 'IPv4-UDP-CoAP', 'UDP', 'CoAP', 'SCTP']
 KINDS = ('ns', 'vs', 'vsv', 'lsb', 'lsbv', 'map')
+KINDS_C = KINDS + ('comp', 'comp')
 
 
-def dir_rule(rnd, pd, d):
+def dir_rule(rnd, pd, d, kinds=KINDS):
     """Descriptors for direction d match the packet; the alternative ones (other direction) are of another kind."""
     other = DI.DOWN if d == DI.UP else DI.UP
     fds = []
     nalt = 0
     for f in pd.fields:
-        k = rnd.choice(KINDS)
+        k = rnd.choice(kinds)
+        if k == 'comp':
+            fds.append(gen_rfd(rnd, f, k, DI.BIDIRECTIONAL))
+            continue
         if rnd.random() < 0.35:
             nalt += 1
             mine = gen_rfd(rnd, f, k, d)
@@ -52,7 +56,7 @@ def run(rep, tier, seed):
         d = rnd.choice([DI.UP, DI.DOWN])
         other = DI.DOWN if d == DI.UP else DI.UP
         pd.direction = d
-        rule, nalt = dir_rule(rnd, pd, d)
+        rule, nalt = dir_rule(rnd, pd, d, kinds=KINDS_C if (i % 2 and stack in ('IPv6-UDP-CoAP', 'IPv4-UDP-CoAP', 'SCTP')) else KINDS)
         klass = 'dir:%s:%s' % (DIRC[d], 'alt' if nalt else 'bi-only')
         case_match(b, pd, [rule], klass='match-' + klass)
         o = case_compress(b, pd, rule, d, klass='compress-' + klass)
@@ -76,6 +80,35 @@ def run(rep, tier, seed):
             fails = [] if o2 == ('OK', b2s(pkt)) else ['manager decompress for direction %s gives %s' % (DIRC[d], str(o2)[:100])]
             line = ' '.join(['S', 'cmdecompress', tb(s), DIRC[d]] + rules_tokens([nr]))
             b.add('manager-roundtrip-' + klass, line, o2, parse_model_bits, fails, dict(layer='schc', op='cmdecompress', schc=s, rules=[nr], direction=DIRC[d]), key=line)
+    # one long-lived ContextManager serving both directions in turn (what it did for Up must not leak into Dw)
+    for i in range(n // 4):
+        stack, pkt, st, pd = gen_parsed(rnd, STACKS[i % len(STACKS)])
+        pd.direction = DI.UP
+        up, _ = dir_rule(rnd, pd, DI.UP)
+        # make the rule serve both directions: its alternative descriptors for Dw match the packet as well
+        fds = []
+        for f_, rf in zip([x for x in pd.fields for _ in (0,)], []):
+            pass
+        both = []
+        for f_ in pd.fields:
+            if rnd.random() < 0.4:
+                both += [gen_rfd(rnd, f_, rnd.choice(KINDS), DI.UP), gen_rfd(rnd, f_, rnd.choice(KINDS), DI.DOWN)]
+            else:
+                both.append(gen_rfd(rnd, f_, rnd.choice(KINDS), DI.BIDIRECTIONAL))
+        rule = RuleDescriptor(id=mk(randbits(rnd, rnd.randint(1, 12)), rnd.choice([L, R])), field_descriptors=both)
+        nr = n_rule(rule)
+        cm = ContextManager(Context(id='c', description='', interface_id='i', parser_id=stack, ruleset=[rule]))
+        for d in (DI.UP, DI.DOWN, DI.DOWN, DI.UP):
+            out = obs_bits(with_timeout(lambda: cm.compress(Buffer(pkt, len(pkt) * 8), direction=d)))
+            want = ref_compress(dict(n_pdesc(pd), dir=DIRC[d]), nr, DIRC[d])
+            fails = [] if out == ('OK', want) else ['long-lived manager, direction %s: compress gives %s, expected %s' % (DIRC[d], str(out)[:100], (want or 'None')[:100])]
+            line = ' '.join(['S', 'cmcompressp', stack, tb(b2s(pkt)), DIRC[d], 'F'] + rules_tokens([nr]))
+            b.add('manager-both-directions:compress', line, out, parse_model_bits, fails, dict(layer='schc', op='cmcompress', stack=stack, packet=pkt.hex(), rules=[nr], direction=DIRC[d]), key=(line, d, i))
+            if out[0] == 'OK' and isinstance(out[1], str):
+                o2 = obs_bits(with_timeout(lambda: cm.decompress(mk(out[1], R), direction=d)))
+                fails = [] if o2 == ('OK', b2s(pkt)) else ['long-lived manager, direction %s: round trip gives %s' % (DIRC[d], str(o2)[:100])]
+                line = ' '.join(['S', 'cmdecompress', tb(out[1]), DIRC[d]] + rules_tokens([nr]))
+                b.add('manager-both-directions:roundtrip', line, o2, parse_model_bits, fails, dict(layer='schc', op='cmdecompress', schc=out[1], rules=[nr], direction=DIRC[d]), key=(line, d, i))
     b.run()
 
 
